@@ -918,6 +918,7 @@ func verifRoundTripNextHop(a *PathAttributeNextHop) bool {
 //@   claims post bounds
 //@   modifies p.*
 //@   ensures p.TunnelID != nil
+//@   ensures result != nil ==> isMsgErr(result)
 //@ func labelSerialize
 //@   modifies nothing
 //@ func labelDecode
